@@ -131,6 +131,18 @@ class Tape(object):
             v = self.rng.randrange(n)
         return self._put(v)
 
+    def edge(self, n):
+        """Integer in [0, n) with the ends of the range over-represented
+        (uniform two times in three)."""
+        if n <= 2:
+            return self.draw(n)
+        sel = self.draw(6)
+        if sel <= 3:
+            return self.draw(n)
+        if sel == 4:
+            return n - 1
+        return [0, 1, n // 2, n - 2][self.draw(4)]
+
     def draw_small(self, n, p=0.5):
         """Integer in [0, n) biased geometrically towards 0."""
         if n <= 1:
